@@ -237,6 +237,8 @@ def run_case(prog, cfg=None, faults=None, cleanups=None, hooks=False, record_eve
         def make_cleanup(cid, raising):
             def cleanup():
                 obs["cleanups"].append(cid)
+                if raising == "assert":
+                    raise AssertionError("cleanup %s failed" % cid)     # the class of a cleanup's exception must not matter
                 if raising:
                     raise RuntimeError("cleanup %s failed" % cid)
             cleanup.__name__ = "cleanup_%s" % cid
